@@ -284,6 +284,19 @@ inline void run(Ctx& C) {
       perText(false, "{" + k + ":1,\"b\":1}", "key");
       perText(false, "[{" + k + ":[1]},1]", "key-in-element");
     }
+    // JSON objects that repeat a key (the last occurrence wins in the unfiltered run, so it must win in the projection too):
+    // every ordered pair of values of different and equal kinds, in four shapes
+    if (spell == "all") {
+      const char* dupValues[] = {"1", "\"s\"", "null", "true", "[1]", "[]", "{\"a\":1}", "{\"b\":1}", "{}", "[{\"a\":1}]"};
+      for (const char* X : dupValues)
+        for (const char* Y : dupValues) {
+          std::string x = X, y = Y;
+          perText(false, "{\"a\":" + x + ",\"a\":" + y + "}", "dup");
+          perText(false, "{\"a\":" + x + ",\"b\":1,\"a\":" + y + "}", "dup-apart");
+          perText(false, "[{\"a\":" + x + ",\"a\":" + y + "}]", "dup-in-element");
+          perText(false, "{\"b\":{\"a\":" + x + ",\"a\":" + y + "}}", "dup-below");
+        }
+    }
     // MessagePack: long payloads (around the 32-byte and the 8/16/32-bit header boundaries) and every header width of the short leaves
     std::vector<MValue> wide;
     for (size_t n : std::vector<size_t>{31, 32, 33, 64, 255, 256, 65535 > detail::StringNode::maxLength ? size_t(200) : size_t(65535)}) wide.push_back(MValue::str(std::string(n, 'w')));
@@ -326,7 +339,7 @@ inline void run(Ctx& C) {
           });
         });
     }
-    C.bound("skip routines: 28 further JSON leaf spellings x 5 shapes and 7 key spellings x 3 shapes, MessagePack payloads of 31..65535 bytes x 4 shapes and every "
+    C.bound("skip routines: 28 further JSON leaf spellings x 5 shapes and 7 key spellings x 3 shapes, JSON objects repeating a key with every ordered pair of 10 values x 4 shapes, MessagePack payloads of 31..65535 bytes x 4 shapes and every "
             "header width of int / float / str leaves (<= 1 non-minimal node, and all maximal), each against " + std::to_string(sfilters.size()) + " filters (all with <= 2 nodes, all deeper chains)");
   }
   // ---- 2. filter `true` is the identity on every input, and arbitrary filters are safe, over a malformed space
